@@ -59,8 +59,9 @@ type c06Case struct {
 	Ctl     bool      `json:"controls"`
 	Mode    int       `json:"mode"`
 	// LocalClose: the application sent its own close before reading; WriteBroken: every transport write fails
-	LocalClose  bool `json:"application_sent_close_first,omitempty"`
-	WriteBroken bool `json:"write_side_broken,omitempty"`
+	LocalClose    bool `json:"application_sent_close_first,omitempty"`
+	WriteBroken   bool `json:"write_side_broken,omitempty"`
+	StaleDeadline bool `json:"stale_expired_write_deadline,omitempty"`
 }
 
 func runC06(ctx *core.Ctx, out *core.Out) {
@@ -78,6 +79,8 @@ func runC06(ctx *core.Ctx, out *core.Out) {
 		cs.LocalClose = true
 	case 1:
 		cs.WriteBroken = true
+	case 2, 3:
+		cs.StaleDeadline = true
 	}
 	cs.L = int64([]int{1, 2, 10, 124, 125, 126, 127, 1000, 65535, 65536}[r.Intn(10)])
 	if r.Chance(1, 4) {
@@ -207,6 +210,9 @@ func runC06(ctx *core.Ctx, out *core.Out) {
 		}
 	case cs.WriteBroken:
 		nc.WriteErr = io.ErrClosedPipe
+	case cs.StaleDeadline:
+		// the application's per-write deadline of an earlier write has passed
+		c.SetWriteDeadline(time.Now().Add(-time.Second))
 	}
 
 	// play the history
